@@ -44,9 +44,39 @@ def shape_guards(ctx, rep, rule: str) -> None:
         ok = len(two_d) == 1 and len(square) == 1 and bool(targets) and all(cfg.dominates(two_d[0], t) and cfg.dominates(square[0], t) for t in targets)
         rep.ob(rule, f"shape-rejection-dominates:{name}", ok, fi.loc(), f"`not 2-D => ValueError` ({len(two_d)}) and `not square => ValueError` ({len(square)}) lie on every path to the {len(targets)} solver call(s) / result(s), including the diagonal fast path", sample=True)
         if name != "check_diagonal":
-            scalar = [t for t in tests if "numel(A) == 1" in _norm(t.ast.test)]
-            ok = len(scalar) == 1 and two_d and cfg.dominates(scalar[0], two_d[0]) and any(isinstance(s, ast.Return) for s in scalar[0].ast.body)
-            rep.ob(rule, f"one-element-input-handled-first:{name}", bool(ok), fi.loc(), "a 1-element input of any shape is answered before the shape rejection (the property excludes it from rejection)")
+            scalar = [t for t in tests if "numel" in _norm(t.ast.test) and any(isinstance(s, ast.Return) for s in t.ast.body) and two_d and cfg.dominates(t, two_d[0])]
+            ok = len(scalar) == 1
+            detail = "a 1-element input of any shape is answered before the shape rejection"
+            if ok:
+                # the fast-path test must hold exactly for 1-element inputs: interpret it on shape stubs
+                import math
+                from types import SimpleNamespace
+
+                bad = []
+                for shape in [(), (1,), (1, 1), (1, 1, 1), (3,), (2,), (2, 3), (3, 3), (2, 2, 2), (0,), (5, 1)]:
+                    stub = SimpleNamespace(shape=shape, ndim=len(shape), _numel=math.prod(shape))
+
+                    def hook(interp, call, stub=stub):
+                        d = _norm(call.func)
+                        if d in ("torch.numel", "numel") and call.args:
+                            return stub._numel
+                        if d.endswith(".numel"):
+                            return stub._numel
+                        if d.endswith(".dim") or d.endswith(".ndimension"):
+                            return stub.ndim
+                        if d.endswith(".size") and not call.args:
+                            return stub.shape
+                        return MISSING
+
+                    try:
+                        got = bool(Interp({"A": stub}, call_hook=hook).ev(scalar[0].ast.test))
+                    except Unsupported as u:
+                        raise AnalysisError(f"{rule}: 1-element test outside the sub-language: {u}") from u
+                    if got != (stub._numel == 1):
+                        bad.append((shape, got))
+                ok = not bad
+                detail += f"; the test `{_norm(scalar[0].ast.test)}` must hold exactly for inputs with one element (interpreted on 11 shapes)" + (f": shape {bad[0][0]} gives {bad[0][1]} — a multi-element input that is not a square matrix would escape the rejection" if bad else "")
+            rep.ob(rule, f"one-element-input-handled-first:{name}", bool(ok), fi.loc(), detail, sample=True)
     for name in ("_matrix_inverse_root_diagonal", "_matrix_inverse_root_eigen"):
         fi = repo.func(f"{MF}:{name}")
         cfg = CFG(fi.node)
@@ -152,7 +182,31 @@ def retry_rule(ctx, rep, rule: str) -> None:
     rep.ob(rule, "retry-or-reraise", ok, fi.loc(tries[0]) if tries else fi.loc(), detail, sample=True)
 
 
+def decomposition_outputs_consistent(ctx, rep, rule: str) -> None:
+    """Eigenvalues and eigenvectors leave matrix_eigenvalue_decomposition through the same conversion (same device / dtype
+    arguments), so that after a double-precision retry they still have one dtype and can be combined."""
+    repo = ctx.repo
+    fi = repo.func(f"{MF}:matrix_eigenvalue_decomposition")
+    rets = [n for n in A.walk_no_nested(fi.node) if isinstance(n, ast.Return)]
+    ok = len(rets) == 1 and isinstance(rets[0].value, ast.Tuple) and len(rets[0].value.elts) == 2
+    detail = "single `return <eigenvalues>, <eigenvectors>`"
+    if ok:
+        def conv(e):
+            if isinstance(e, ast.Call) and isinstance(e.func, ast.Attribute) and isinstance(e.func.value, ast.Name):
+                return e.func.value.id, e.func.attr, tuple(_norm(a) for a in e.args), tuple(sorted((k.arg, _norm(k.value)) for k in e.keywords))
+            if isinstance(e, ast.Name):
+                return e.id, None, (), ()
+            return None, None, (), ()
+        a, b = conv(rets[0].value.elts[0]), conv(rets[0].value.elts[1])
+        binds = [n.targets[0] for n in ast.walk(fi.node) if isinstance(n, ast.Assign) and isinstance(n.value, ast.Call) and "eigh" in _norm(n.value.func) and isinstance(n.targets[0], ast.Tuple)]
+        names = {tuple(x.id for x in t.elts if isinstance(x, ast.Name)) for t in binds}
+        ok = a[1:] == b[1:] and len(names) == 1 and (a[0], b[0]) == next(iter(names))
+        detail = f"returns `{_norm(rets[0].value)}`: both outputs of eigh in (eigenvalues, eigenvectors) order through the same conversion: {ok}"
+    rep.ob(rule, "decomposition-outputs-share-dtype-and-device", ok, fi.loc(rets[0]) if rets else fi.loc(), detail, sample=True)
+
+
 def run(ctx, rep) -> None:
+    rep.attempt("decomposition_outputs_consistent", decomposition_outputs_consistent, ctx, rep, "C11.3")
     rep.rule("C11.1", "shape rejection dominates every solver / fast path; positive-root guard dominates the power")
     rep.rule("C11.2", "every eigenvalue is shifted by -min(lambda_min, 0) and regularised by +epsilon before the power, on both enhance_stability branches")
     rep.rule("C11.3", "decomposition failure: retry in double precision only under the flag and a non-float64 dtype, otherwise re-raise")
